@@ -174,7 +174,7 @@ def check(ctx):
     # ---------------- threads (thorough only): a fit computed with 1 and 16 threads in fresh processes
     if not ctx.quick:
         script = ("import sys,json,numpy as np\nsys.path.insert(0,'%s')\nfrom gens import *\nfrom symfc import Symfc\nrng=np.random.default_rng(5)\n"
-                  "sc=make_supercell(base_cells()['tri1'],(2,2,1));at=atoms_of(sc);d,f=random_dataset(rng,40,4)\n"
+                  "sc=make_supercell(base_cells()['tri2_P1'],(2,1,1));at=atoms_of(sc);d,f=random_dataset(rng,40,4)\n"
                   "o=Symfc(at,displacements=d,forces=f).run(orders=[2,3],is_compact_fc=False)\nprint(json.dumps({str(k):np.asarray(v).ravel().tolist() for k,v in o.force_constants.items()}))\n") % os.path.dirname(os.path.abspath(__file__))
         outs = []
         for th in (1, 16):
